@@ -90,7 +90,12 @@ def ty_src(t, defs):
             return f'{q("Union")}[None, {ty_src(a[0], defs)}]'
         return f'{q("Optional")}[{ty_src(a[0], defs)}]'
     if k == 'union':
-        return q('Union') + '[' + ', '.join(ty_src(x, defs) for x in a) + ']'
+        # optional `fwd`: the dataclass members are written as forward references inside a real typing.Union - Union['Cat', 'Dog', int] -
+        # (True: the classes are defined before the class that refers to them; 'late': after it, see Built)
+        parts = [ty_src(x, defs) for x in a]
+        if t.get('fwd'):
+            parts = [repr(sx) if x['k'] == 'cls' else sx for sx, x in zip(parts, a)]
+        return q('Union') + '[' + ', '.join(parts) + ']'
     if k in ('list', 'set', 'frozenset'):
         return f'{q(k)}[{ty_src(a[0], defs)}]'
     if k == 'deque':
@@ -186,6 +191,10 @@ def ty_src(t, defs):
             pn = t.get('pyname') or t['name']
             defs[t['name']] = wrap_def(t['name'], t.get('pyname'), f'class {pn}({q("TypedDict")}):\n' + '\n'.join(lines or ['    pass']) + '\n')
         return t['name']
+    if k == 'selfref':
+        # a reference to a class of the model by name, written as a string (forward reference): the class itself (self-referential
+        # models need Meta.recursive_classes on the default engine) or one that is defined elsewhere in the module
+        return repr(t['name'])
     if k == 'cls':
         name = t['info']['name']
         if name not in defs:
@@ -399,6 +408,8 @@ class Built:
     def __init__(self, root_ty, extra_src=''):
         defs = collections.OrderedDict()
         self.root_name = ty_src(root_ty, defs)
+        for late in _late_names(root_ty, []):      # classes only referred to by forward references: defined after everything else
+            defs.move_to_end(late)
         self.source = PRELUDE + '\n' + '\n'.join(s for s in defs.values() if s) + '\n' + extra_src
         self.modname = fresh('dwv_mod_')
         self.mod = types.ModuleType(self.modname)
@@ -421,6 +432,22 @@ class Built:
 
     def close(self):
         sys.modules.pop(self.modname, None)
+
+
+def _late_names(t, out):
+    k = t['k']
+    if k == 'union' and t.get('fwd') == 'late':
+        out.extend(x['info']['name'] for x in t['a'] if x['k'] == 'cls' and x['info']['name'] not in out)
+    if k == 'cls':
+        for _, ft in t['ftys']:
+            _late_names(ft, out)
+    elif k in ('namedtuple', 'typeddict'):
+        for fld in t['fields']:
+            _late_names(fld[1], out)
+    else:
+        for x in t.get('a', []):
+            _late_names(x, out)
+    return out
 
 
 def _collect_infos(t, out):
@@ -550,6 +577,17 @@ def enc_ty(t):
     if 'a' in t:
         d['a'] = [enc_ty(x) for x in t['a']]
     return d
+
+
+def contains_kind(t, kind):
+    """does the type expression contain a node of the given kind"""
+    if t['k'] == kind:
+        return True
+    if t['k'] == 'cls':
+        return any(contains_kind(ft, kind) for _n, ft in t['ftys'])
+    if t['k'] in ('namedtuple', 'typeddict'):
+        return any(contains_kind(f[1], kind) for f in t['fields'])
+    return any(contains_kind(x, kind) for x in t.get('a', []))
 
 
 def _is_catch_all(info, name):
